@@ -190,6 +190,8 @@ def run(ctx: common.Ctx):
                     f'FASTA, e.g. {sorted(missing)[:3]}', dict(r['desc'], kind='missing-' + kind,
                                                                missing=sorted(missing)[:20]))
     cv_checks.fusion_pairs(ctx, ctx.n(40, 600))
+    # binding node-collapsing parameters on indel-rich clusters: nothing may be lost
+    cv_checks.collapse_stream(ctx, ctx.n(240, 3000), 'lost')
     ctx.coverage['worker_stats'] = {'trypsin-noexc': stats, 'trypsin-exc': stats2,
                                     'all-enzymes': stats3, 'special-codons': stats4,
                                     'nested-in-splicing': stats5}
